@@ -264,6 +264,8 @@ C13_SubLimit == \A c \in Conns : SubLimit > 0 => Cardinality(Subs(c)) <= SubLimi
 C13_OnlyRegisteredGens == \A c \in Conns : \A it \in Queued(c) \cup SentItems(c) : it[2] = 0 \/ it[2] \in DOMAIN qtask
 \* C01 at this level: only accepted events are ever queued or sent
 C01_OnlyAccepted == \A c \in Conns : \A it \in Queued(c) \cup SentItems(c) : it[3] = EOSE \/ it[3] \in accepted
+\* C03 at this level: only authentic events are ever accepted (and hence queued, sent or pushed)
+C03_OnlyAuthenticAccepted == \A i \in accepted : i \in Ids /\ Ev(i).auth
 \* C13: a registered subscription has a query task that is not cancelled
 C13_RegisteredIsLive == \A cs \in Registered : reg[cs[1]][cs[2]].gen \in DOMAIN qtask /\ qtask[reg[cs[1]][cs[2]].gen] # "cancelled"
 
@@ -337,5 +339,6 @@ StateVerdict ==
     \cup (IF C13_OnlyRegisteredGens THEN {} ELSE {"C13_OnlyRegisteredGens"})
     \cup (IF C01_OnlyAccepted THEN {} ELSE {"C01_OnlyAccepted"})
     \cup (IF C13_RegisteredIsLive THEN {} ELSE {"C13_RegisteredIsLive"})
+    \cup (IF C03_OnlyAuthenticAccepted THEN {} ELSE {"C03_OnlyAuthenticAccepted"})
 
 =============================================================================
